@@ -6,7 +6,7 @@ namespace CC.Driver.TreeSetD
 open CC CC.Driver
 open CC.Spec (OrdMap)
 open CC.Spec.OrdMap (Out Cursor)
-open CC.Driver.TreeTableD (cmpOf fmtTree fmtIter hdr)
+open CC.Driver.TreeTableD (cmpOf fmtPT fmtIter hdr ptStep ptAgrees)
 
 structure Sess where
   which : Nat := 0
@@ -17,6 +17,9 @@ structure Sess where
   mem   : Mem := {}
   /-- `obs=sparse`: the content is printed by `observe` only -/
   sparse : Bool := false
+  /-- the pointer-level model of the wrapped table, run alongside -/
+  pt  : PTree.PT := {}
+  pit : Option PTree.PIter := none
 
 def obsM (t : Option TreeSet) : String :=
   match t with
@@ -26,8 +29,9 @@ def obsS (f : Option OrdMap) : String := s!"elems={fmtList (OrdMap.keys (f.getD 
 def phys (s : Sess) (cmps : Nat) : String :=
   match s.model with
   | none => "-"
-  | some t => s!"size={t.t.size} cmps={cmps} it={fmtIter t.t.root s.iter} tree={fmtTree t.t.root}"
-def inv (s : Sess) : Bool := match s.model with | none => true | some t => decide (t.Inv (cmpOf s.which))
+  | some t => s!"size={t.t.size} cmps={cmps} it={fmtIter t.t.root s.pt s.pit s.iter} tree={fmtPT s.pt.heap (s.pt.size + 1) s.pt.root}"
+def inv (s : Sess) : Bool :=
+  match s.model with | none => true | some t => decide (t.Inv (cmpOf s.which)) && ptAgrees s.pt t.t
 def lineS (hd : String) (s : Sess) (full : Bool := false) : String :=
   if s.sparse && !full then s!"S {hd} " else s!"S {hd} {obsS s.spec}"
 def lineM (hd : String) (s : Sess) (cmps : Nat) (full : Bool := false) : String :=
@@ -56,7 +60,7 @@ def step (s : Sess) (c : Cmd) : Sess × String × String :=
     -- `new_default`: the library's default constructor, i.e. the C library's allocator triple
     let (st, t, m) := TreeSet.newT (if c.op == "new_default" then .libc else .conf) m
     let (sst, sp) : Stat × Option OrdMap := if c.fired > 0 then (.errAlloc, none) else (.ok, some [])
-    let s' : Sess := { which := c.nat "cmp" 0, model := t, spec := sp, mem := m, sparse := c.str "obs" == some "sparse" }
+    let s' : Sess := { which := c.nat "cmp" 0, model := t, spec := sp, mem := m, sparse := c.str "obs" == some "sparse", pt := PTree.new }
     (s', lineS (fmtStat sst) s', lineM (fmtStat st) s' 0)
   | _ =>
   match s.model, s.spec with
@@ -66,23 +70,26 @@ def step (s : Sess) (c : Cmd) : Sess × String × String :=
     | some op =>
       let (o, t', m, n) := t.step cmp op m
       let (so, f') := Spec.OrdSet.step cmp f op (c.fired > 0)
-      let s' : Sess := { s with model := some t', spec := some f', mem := m }
+      let pt' := ptStep cmp s.pt (Spec.OrdSet.toMapOp op) (o.st != some Stat.errAlloc)
+      let s' : Sess := { s with model := some t', spec := some f', mem := m, pt := pt' }
       let cb (o : Out) := if op = .foreach then some o.log else none
       (s', lineS (hdr so.st so.val (cb so) noout) s', lineM (hdr o.st o.val (cb o) noout) s' n)
     | none =>
     match c.op with
     | "it_new" =>
-      let s' : Sess := { s with iter := some t.iterInit, cursor := some (Cursor.init f), mem := m }
+      let pit' := some (PTree.iterInit s.pt)
+      let s' : Sess := { s with iter := some t.iterInit, cursor := some (Cursor.init f), mem := m, pit := pit' }
       (s', lineS "st=-" s', lineM "st=-" s' 0)
     | "it_drop" =>
-      let s' : Sess := { s with iter := none, cursor := none, mem := m }
+      let s' : Sess := { s with iter := none, cursor := none, mem := m, pit := none }
       (s', lineS "st=-" s', lineM "st=-" s' 0)
     | "it_next" =>
       match s.iter, s.cursor with
       | some it, some cu =>
         let (st, e, it') := t.iterNext it
         let (sst, se, cu') := cu.next f
-        let s' : Sess := { s with iter := some it', cursor := some cu', mem := m }
+        let pit' := s.pit.map (PTree.iterNext s.pt)
+        let s' : Sess := { s with iter := some it', cursor := some cu', mem := m, pit := pit' }
         (s', lineS (hdr (some sst) (se.map (·.1)) none) s', lineM (hdr (some st) e none) s' 0)
       | _, _ => let s' := { s with mem := m }; (s', lineS "st=- noiter" s', lineM "st=- noiter" s' 0)
     | "it_remove" =>
@@ -95,7 +102,10 @@ def step (s : Sess) (c : Cmd) : Sess × String × String :=
         let (sst, _, cu', f') := cu.remove f
         -- the ideal iterator hands back the removed element
         let sv := match sst with | .ok => cu.last | _ => none
-        let s' : Sess := { s with model := some t', spec := some f', iter := some it', cursor := some cu', mem := m }
+        let pr := match s.pit with
+          | some pi => let r := PTree.iterRemove s.pt pi; (r.1, some r.2)
+          | none => (s.pt, none)
+        let s' : Sess := { s with model := some t', spec := some f', iter := some it', cursor := some cu', mem := m, pt := pr.1, pit := pr.2 }
         (s', lineS (hdr (some sst) sv none noout) s', lineM (hdr (some st) v none noout) s' 0)
       | _, _ => let s' := { s with mem := m }; (s', lineS "st=- noiter" s', lineM "st=- noiter" s' 0)
     | "observe" =>
